@@ -36,6 +36,7 @@ type execIn struct {
 	HoldFd string   `json:"holdfd,omitempty"` // "both" (default) | "stdout" | "stderr" | "none" (descendant with both redirected)
 	Out    [][2]int `json:"out,omitempty"`    // stdout of the script, run-length encoded bytes
 	ErrOut int      `json:"errout,omitempty"` // bytes written to stderr
+	ErrTxt [][2]int `json:"errtxt,omitempty"` // text written to stderr, run-length encoded bytes
 }
 
 type execObs struct {
@@ -118,6 +119,11 @@ func execPrepare(dir string, in execIn) (path string, beh string, ck int, cleanu
 	}
 	at := func(ms int) string { return cRec("At", cZ(ms)) }
 	head := "#!/bin/sh\n" + execPrintCmd(in.Out)
+	if len(in.ErrTxt) > 0 {
+		for _, line := range strings.Split(strings.TrimSuffix(execPrintCmd(in.ErrTxt), "\n"), "\n") {
+			head += line + " >&2\n"
+		}
+	}
 	if in.ErrOut > 0 {
 		head += "head -c " + itoa(in.ErrOut) + " /dev/zero | tr '\\000' 'e' >&2\n"
 	}
@@ -171,6 +177,12 @@ func execPrepare(dir string, in execIn) (path string, beh string, ck int, cleanu
 		}
 		held := at(h)
 		beh = proc(cRec("ExitCode", cZ(in.Code)), at(in.Sleep), held)
+	case "txtbusy": // another process has the (root-owned, executable) script open for writing when it is started
+		write(head+"exit 0\n", 0o755)
+		fd, ferr := os.OpenFile(path, os.O_WRONLY, 0) // O_CLOEXEC: stays in the harness process only
+		must(ferr)
+		cleanup = func() { fd.Close() }
+		beh = "(CannotStart SfTextBusy)"
 	case "noexec":
 		write(head+"exit 0\n", 0o644)
 		beh = "(CannotStart SfNoExecBit)"
@@ -506,6 +518,26 @@ func init() {
 					"owner", "groupwrite", "otherwrite", "missing"} {
 					add(execIn{Api: 0, T: pickT(), Kind: k, Out: execTxt("42\n")}, "cannot-start-or-refused")
 				}
+				// text file busy, through SafeCmdExecution and every wrapper
+				for api := 0; api <= 4; api++ {
+					add(execIn{Api: api, T: pickT(), Kind: "txtbusy", Out: execTxt("42\n")}, "cannot-start-or-refused", "text-file-busy")
+				}
+				// multi-byte and invalid UTF-8 in what ends up in log messages: stderr of a failing command and
+				// unparsable output, around 200 bytes / 200 characters
+				rep := func(unit string, n int) [][2]int { return execTxt(strings.Repeat(unit, n) + "\n") }
+				utf := [][][2]int{
+					rep("\u00e4", 100), rep("\u00e4", 101), rep("\u00e4", 120), rep("\u00e4", 199), rep("\u00e4", 250),
+					rep("\u6e29\u5ea6\u30bb\u30f3\u30b5\u30fc", 12), rep("\u6e29\u5ea6\u30bb\u30f3\u30b5\u30fc", 30), rep("\U0001F525", 51), rep("\U0001F525", 70),
+					rep("x", 199), rep("x", 200), rep("x", 201), rep("x\u00e4", 67), rep("\xff", 199), rep("\xff", 201), rep("\xc3", 150), rep("a\xe6\xb8", 80),
+				}
+				for _, u := range utf {
+					add(execIn{Api: 0, T: 500, Kind: "exit", Code: 1, ErrTxt: u}, "nonzero", "utf8-stderr")
+					add(execIn{Api: 0, T: 500, Kind: "exit", Code: 0, Out: u}, "exit0", "utf8-output")
+					for api := 1; api <= 4; api++ {
+						add(execIn{Api: api, Kind: "exit", Code: 0, Out: u}, "caller", "exit0", "utf8-output")
+						add(execIn{Api: api, Kind: "exit", Code: 3, ErrTxt: u, Out: u}, "caller", "nonzero", "utf8-stderr")
+					}
+				}
 				for _, k := range []string{"sleepexec", "sleepchild", "trapsleep"} {
 					add(execIn{Api: 0, T: pickT(), Kind: k, Sleep: long, Out: pickOut()}, "past-deadline")
 				}
@@ -574,7 +606,7 @@ func init() {
 			}
 			nontrivial := j.in.Kind != "exit" || j.in.Code != 0 || len(j.in.Out) == 0
 			ctx.Emit(Record{In: j.in, Obs: results[i].obs, Coq: results[i].coq, Tags: tags, NonTrv: nontrivial,
-				Key: fmt.Sprintf("%d|%s|%d|%d|%d|%s|%v|%d|%s", j.in.Api, j.in.Kind, j.in.Code, j.in.Sig, j.in.T, j.in.HoldFd, j.in.Out, j.in.ErrOut, results[i].obs.Class)})
+				Key: fmt.Sprintf("%d|%s|%d|%d|%d|%s|%v|%d|%v|%s", j.in.Api, j.in.Kind, j.in.Code, j.in.Sig, j.in.T, j.in.HoldFd, j.in.Out, j.in.ErrOut, j.in.ErrTxt, results[i].obs.Class)})
 		}
 	}
 }
